@@ -123,17 +123,24 @@ func Work(c *Counter, q *Quoted, p *Plain) int {
 }
 
 func Helper() int { return 0 }
+
+// a type local to a function literal in a package-level initialiser that shares the name of a package-level type
+var Init = func() int {
+	//«p7»
+	type Plain struct{ M int }
+	return Plain{M: 1}.M
+}()
 `
 
 var c09Valid = []string{" @immutable", " @constructor Make", " @testonly", " @packageonly w", " @mutable", " plain"}
 
 // ZZC09Placement: VALID annotation lines, but only at placements that are not doc comments of top-level declarations
 // (trailing comments, a quoted example inside a block-comment doc, doc of a local type, comment in a body, doc of a
-// var): nothing is read as an annotation and no analyzer reports anything.
+// var, doc of a type local to a function literal in a package-level initialiser): nothing is read as an annotation and no analyzer reports anything.
 func ZZC09Placement() {
 	holes := []nd.Hole{}
 	nonPlain := 0
-	for _, n := range []string{"p1", "p2", "p3", "p4", "p5", "p6"} {
+	for _, n := range []string{"p1", "p2", "p3", "p4", "p5", "p6", "p7"} {
 		v := nd.EnumPad(n, c09Valid...)
 		holes = append(holes, nd.Hole{Name: n, Value: v})
 		nonPlain += nd.IteInt(nd.HasPrefix(v, " plain"), 0, 1)
